@@ -1,5 +1,5 @@
 (* Run.v -- scenario dispatcher of the extracted model: sx -> sx. *)
-From LNN Require Import Num Neuron Node Sx Grad PropEngine PropRun.
+From LNN Require Import Num Neuron Node Sx Grad PropEngine PropRun Registry.
 Open Scope Z_scope.
 
 Definition dwhich (s : sx) : which :=
@@ -43,6 +43,26 @@ Definition run_k8 (args : list sx) : sx :=
   | _ => bad
   end.
 
+(* K30: (30 kb (roots-of-call ...)) -> per add_knowledge call: num_formulae, formula_number of every
+   object (-1 = none), Model.nodes as key -> object for key < num_formulae, len(Model.nodes), and how
+   often each object's parameters occur in Model.parameters() *)
+Definition run_k30 (args : list sx) : sx :=
+  match args with
+  | [kbs; calls] =>
+      let k := dlist dobj kbs in
+      if negb (wf_kbb k) then L [A (-996)] else
+      let n := length k in
+      let step (acc : reg * list sx) (c : sx) :=
+        let r := add_knowledge k (fst acc) (dlist dnat c) in
+        (r, L [enat (num_formulae r);
+               L (map (fun i => match formula_number r i with Some m => enat m | None => A (-1) end) (seq 0 n));
+               L (map (fun key => match dget (r_nodes r) key with Some o => enat o | None => A (-1) end) (seq 0 (num_formulae r)));
+               enat (num_formulae r);
+               L (map (fun i => match formula_number r i with Some _ => enat 1 | None => enat 0 end) (seq 0 n))] :: snd acc) in
+      L (rev (snd (fold_left step (match calls with L l => l | _ => [] end) (reg_empty, []))))
+  | _ => bad
+  end.
+
 Definition run_base (tag : Z) (args : list sx) : option sx :=
   match tag with
   | 1 => Some (run_k1 args)
@@ -50,5 +70,6 @@ Definition run_base (tag : Z) (args : list sx) : option sx :=
   | 3 => Some (run_k3 args)
   | 4 => Some (run_k4 args)
   | 8 => Some (run_k8 args)
+  | 30 => Some (run_k30 args)
   | _ => None
   end.
